@@ -192,12 +192,8 @@ def run(ck):
             continue
         env = env_of(reqs[je][1])
         val = L.hex_dbl(impl[je].split()[1])
-        # constants created by the rules are exported through std::to_string (six decimals): the exported
-        # derivative is only compared to 1e-5; the cases between 1e-9 and 1e-5 are counted as an observation
-        verdict, rv = L.export_verdict(impl[jd][3:], env, val, 1e-5)
-        xstat[verdict] += 1
-        if verdict == "same" and not L.close(rv, val, 1e-9):
-            xstat["same_only_to_1e-5(std::to_string constants)"] = xstat.get("same_only_to_1e-5(std::to_string constants)", 0) + 1
+        verdict, rv = L.export_verdict_derivative(impl[jd][3:], env, val)
+        xstat[verdict] = xstat.get(verdict, 0) + 1
         if verdict == "different" and xrep < 3:
             xrep += 1
             ck.violation("export-derivative:" + L_pattern(reqs[je][3]),
@@ -316,7 +312,7 @@ def run(ck):
         reported.add(key)
         ck.violation(key, what, rep, found)
 
-    ck.notes.append("observation: constants created by the differentiation rules are exported with std::to_string (six decimals, e.g. d/dx x**2.5000001 is exported as (2.5)*std::pow(x,1.500000)), so the exported derivative can differ from differentiate()->getValue() by about 1e-7 relative; counted in export_clause, not a violation of C14 (getValue is exact)")
+    ck.notes.append("observation: constants created by the differentiation rules are exported with std::to_string (six decimals, e.g. d/dx x**2.5000001 is exported as (2.5)*std::pow(x,1.500000)), so the exported derivative differs slightly from differentiate()->getValue() (1e-7 .. 1e-5 relative seen); such cases are recognised by perturbing those literals by half a unit of the sixth decimal and counted as 'same-to-string' in export_clause, not as a violation of C14 (getValue is exact)")
     ck.assumptions += [
         "M: the model's rule set is tied to the C++ by differential execution (every rule of the table on its own, seeded random formulas); the function table is regenerated from the real FunctionGeneratorManager on every run (T2) and the set of functions with a rule is compared with the model's",
         "soundness is proved over ℝ (Mathlib HasDerivAt) for trees without ExponentDerivative nodes (every parsed formula) at points satisfying explicit side conditions (non-zero divisors, positive bases of variable powers, arguments in the open domain, conditions that do not switch at the point); floating-point evaluation of the derivative is libm, not modelled",
